@@ -8,6 +8,10 @@ T = {
  "C05": dict(property="C05", summary="conftest walk split into a direct-definition pass and an import pass", needs="nearer conftest imports the name, farther conftest defines it directly", caught_by=["C05","C01"]),
  "C06": dict(property="C06", summary="cleanup_definitions_for_file removes only the first old definition of a name", needs="a file defining the same fixture name twice, then re-analysed", caught_by=["C06","C04"], strengthened="C06 version tables gained 'same name defined twice' versions (was missed before)"),
  "C16": dict(property="C16", summary="cycles de-duplicated by attachment fixture: later cycles through the same hub are dropped (agent's original patch ported to the repaired cycle search; original kept as patch.original-agent.diff)", needs="two cycles sharing their smallest member, e.g. a(a? no) a(b,c), b(a), c(a)", caught_by=["C16"], strengthened="C16 oracle now requires every definition on a cycle to be a member of a reported cycle (SCC-level coverage missed it); quick tier gained 3-distinct-name graphs with 2 dependencies"),
+ "C03": dict(property="C03", summary="operator-precedence slip in is_fixture_decorator: any `pytest.<attr>` decorator counts as a fixture decorator", needs="a `@pytest.hookimpl` / `@pytest.fixtures` style decorator or `x = pytest.param(...)(f)` assignment", caught_by=[]),
+ "C07": dict(property="C07", summary="definitions_version bumped once per re-analysis instead of per recorded definition: the scan's no-cleanup path never invalidates version-keyed caches", needs="open a file, run a cached query, let the scan path analyse files contributing fixtures, repeat the query", caught_by=[]),
+ "C08": dict(property="C08", summary="imported-fixture lookup picks the last *registered* candidate among the import targets instead of following import order", needs="a conftest importing from two modules that define the same name; the two modules analysed in different orders", caught_by=["C08"]),
+ "C09": dict(property="C09", summary="cleanup_definitions_for_file batches unconditional remove(name) after the loop instead of remove_if(is_empty)", needs="A's cleanup empties definitions[n], B pushes its definition of n, A's batched remove destroys it (one specific interleaving of three map operations)", caught_by=["C09"]),
 }
 for k, v in T.items():
     d = f"/verif/seeded/{k}"
